@@ -63,7 +63,8 @@ class Deployment:
         self.log = []
 
     def run(self, action, *extra, user=None, inject=None, timeout=int(os.environ.get("VERIF_CLI_TIMEOUT", "180"))):
-        argv = [sys.executable, '-m', 'harness.cli_child', action, '--ignore-config', '-q', '-c', str(self.concurrent), '-r', str(self.repo)]
+        # interpreter flags a user may run the tool with: -O removes assert statements (nothing may rely on them)
+        argv = [sys.executable] + list(getattr(self, 'pyflags', [])) + ['-m', 'harness.cli_child', action, '--ignore-config', '-q', '-c', str(self.concurrent), '-r', str(self.repo)]
         argv += ['--cache-directory', str(self.cache)] if self.cache else ['--no-cache']
         if user is not None and user.get('keyfile'):
             argv += ['-p', user['pw'], '-K', str(user['keyfile'])]
@@ -117,6 +118,7 @@ class Scenario:
         self.descr = []
         self.encrypted = self.rng.random() < 0.75
         self.dep = Deployment(wd, self.rng.choice([1, 2, 4]), (wd / 'cache') if self.rng.random() < 0.45 else None)
+        self.dep.pyflags = ['-O'] if self.rng.random() < 0.35 else []
         self.users = []
         self.snaps = {}            # name -> dict(owner, fam, uid, files, table, chunk_paths, path)
         self.orphans = {}          # chunk path -> (fam, digest) expected leftovers of killed snapshots
@@ -204,7 +206,7 @@ class Scenario:
             for u in self.users:
                 u['rkey'] = None
         self.descr.append(['setup', 'encrypted' if self.encrypted else 'plain', [(u['name'], u['how'], u['fam']) for u in self.users],
-                           'c=%d' % dep.concurrent, 'cache' if dep.cache else 'no-cache'])
+                           'c=%d' % dep.concurrent, 'cache' if dep.cache else 'no-cache', 'python ' + ' '.join(dep.pyflags) if dep.pyflags else 'python'])
 
     # ------------------------------------------------------------------ helpers
     def make_files(self, user, big=False):
@@ -754,19 +756,37 @@ class Scenario:
     def corruptions(self, objs):
         rng = self.rng
         present = [n for n, s in self.present(objs).items() if s['chunk_paths']]
-        for _ in range(4):
+        # one case always, when the history allows it: another snapshot object of the same user replayed under this snapshot's name
+        forced = None
+        for n_ in present:
+            same_ = [x for x in self.snaps.values() if x['owner'] == self.snaps[n_]['owner'] and x['path'] != self.snaps[n_]['path']
+                     and x['path'] in objs and x['files'] != self.snaps[n_]['files']]
+            if same_:
+                forced = (n_, same_[0]['path'])
+                break
+        for round_ in range(6):
             if not present:
                 return
             name = rng.choice(present)
+            if round_ == 0 and forced:
+                name = forced[0]
             s = self.snaps[name]
             user = next(u for u in self.users if u['name'] == s['owner'])
-            target = rng.choice(sorted(s['chunk_paths']) + [s['path']])
+            target = s['path'] if (rng.random() < 0.35 or (round_ == 0 and forced)) else rng.choice(sorted(s['chunk_paths']))
             p = Path(os.path.realpath(self.dep.repo / target))
             orig = p.read_bytes()
             how = rng.choice(['flip', 'truncate', 'extend', 'swap', 'remove', 'empty'])
             if how == 'remove' and target == s['path']:
                 how = 'flip'
             other = [q for q in objs if q.startswith(target.split('/')[0] + '/') and q != target]
+            if target == s['path']:
+                # prefer another snapshot object of the same user (decrypts under the same key: only the name check stands in the way)
+                same = [x['path'] for x in self.snaps.values() if x['owner'] == s['owner'] and x['path'] != target and x['path'] in objs]
+                other = same or other
+                if how in ('flip', 'truncate', 'extend', 'empty') and same and rng.random() < 0.5:
+                    how = 'swap'
+                if round_ == 0 and forced:
+                    how, other = 'swap', [forced[1]]
             if how == 'flip' and orig:
                 i = rng.randrange(len(orig))
                 p.write_bytes(orig[:i] + bytes([orig[i] ^ (1 << rng.randrange(8))]) + orig[i + 1:])
